@@ -31,7 +31,7 @@ def entry_points(group):
 
 def is_valid_name(candidate):
     """Check whether `candidate` is a valid name for a target or workflow."""
-    return re.match(r"^[a-zA-Z_][a-zA-Z0-9._]*$", candidate) is not None
+    return re.fullmatch(r"[a-zA-Z_][a-zA-Z0-9._]*", candidate) is not None
 
 
 def chain(*dcts):
